@@ -29,12 +29,13 @@ def go_env():
 # ---------------------------------------------------------------------------------------------------------------
 # Go side: overlay + harness binary
 
-def make_overlay(tmp):
+def make_overlay(tmp, only=None):
     """harness/main/*.go -> /repo/internal/zzverif/harness/*.go ;
-    harness/inject/<pkg path with '__' for '/'>/<f>.go -> /repo/<pkg path>/zz_verif_<f>.go"""
+    harness/inject/<pkg path with '__' for '/'>/<f>.go -> /repo/<pkg path>/zz_verif_<f>.go
+    only = (main file names, [(inject dir, file)]) restricts the overlay to these files"""
     repl = {}
     for f in sorted(os.listdir(os.path.join(HARNESS, "main"))):
-        if f.endswith(".go"):
+        if f.endswith(".go") and (only is None or f in only[0]):
             repl[os.path.join(REPO, "internal/zzverif/harness", f)] = os.path.join(HARNESS, "main", f)
     zz = os.path.join(HARNESS, "zzsync")
     if os.path.isdir(zz):
@@ -46,7 +47,7 @@ def make_overlay(tmp):
         for d in sorted(os.listdir(inj)):
             pkg = d.replace("__", "/")
             for f in sorted(os.listdir(os.path.join(inj, d))):
-                if f.endswith(".go"):
+                if f.endswith(".go") and (only is None or (d, f) in only[1]):
                     repl[os.path.join(REPO, pkg, "zz_verif_" + f)] = os.path.join(inj, d, f)
     path = os.path.join(tmp, "overlay.json")
     with open(path, "w") as fh:
@@ -104,9 +105,25 @@ def yield_copy(tmp, relpath, funcs):
     return {src: dst}
 
 
-def build_harness(tmp, extra_overlay=None, tags=None, race=False):
-    """Build the harness from /repo's current working tree. Returns (path, log)."""
-    ov = make_overlay(tmp)
+def build_harness(tmp, extra_overlay=None, tags=None, race=False, only=None, pid=None):
+    """Build the harness from /repo's current working tree. Returns (path, log).
+    The harness is one binary for all families. If it does not build and `pid` is given, the build is repeated with
+    the files the families of that check need (tools/harness_groups.py): a file of another family that no longer
+    compiles against the tree (a white-box helper naming a private field, say) is no reason to fail this check."""
+    if only is None and pid is not None:
+        exe, log = build_harness(tmp, extra_overlay, tags, race)
+        if exe is not None:
+            return exe, log
+        import harness_groups
+        exe2, log2 = build_harness(tmp, extra_overlay, tags, race, only=harness_groups.files_for(pid))
+        if exe2 is not None:
+            return exe2, "full harness does not build (files of other families), reduced harness used:\n" + log[-1500:]
+        exe3, log3 = build_harness(tmp, extra_overlay, tags, race, only=harness_groups.files_for(pid, optional=False))
+        if exe3 is not None:
+            return exe3, ("full harness does not build, reduced harness without optional white-box helpers used:\n"
+                          + log2[-1500:])
+        return None, log2
+    ov = make_overlay(tmp, only)
     if extra_overlay:
         with open(ov) as fh:
             o = json.load(fh)
@@ -490,9 +507,11 @@ def step_harness(R):
     waited = wait_for_ports()
     if waited > 1:
         R.coverage["waited_for_loopback_ports_s"] = waited
-    exe, log = build_harness(R.tmp)
+    exe, log = build_harness(R.tmp, pid=R.pid)
     if exe is None:
         R.harness_log = log
+    elif log.startswith("full harness does not build"):
+        R.coverage["reduced_harness"] = log[:1200]
     return exe
 
 
